@@ -95,8 +95,8 @@ pub fn compare(c0: &UniCase) -> (u64, u64, Vec<(String, String, Value)>) {
         Ok(v) => v,
         Err(e) => {
             out.push((
-                "oracle#panic".to_string(),
-                format!("reference evaluator panicked: {e}"),
+                "library-call-inside-reference-evaluator#panic".to_string(),
+                format!("a black-box call on the library object panicked while the reference evaluator ran: {e}"),
                 serde_json::to_value(&base).unwrap(),
             ));
             return (0, 0, out);
